@@ -213,6 +213,7 @@ def check_props(case, out):
     loop_ok = None
     executed = []
     closed_sids = set()
+    final_flush_failed = []
     for l in out[1:]:
         if l.startswith("S "):
             m = re.match(r"^S (\d+) \[(.*)\]$", l)
@@ -238,6 +239,8 @@ def check_props(case, out):
             continue
         if l.startswith("L "):
             loop_ok = (l == "L ok")
+            if loop_ok and final_flush_failed:
+                bad.append(("final-flush-failure-ignored", "the FLUSH of stream %s %s at the end of the run failed but hawk_rtx_loop returned success" % final_flush_failed[0]))
             # (d) every stream still open has been flushed after its last write
             for sid, s in live.items():
                 if not s["flushed"]:
@@ -294,7 +297,9 @@ def check_props(case, out):
                 if ps is not None:
                     ps["slices"][key] = ps["slices"].get(key, "") + data[:n]
         elif cmd == "FLUSH":
-            s["flushed"] = True   # a flush call has been issued (its result is ignored at end of run)
+            s["flushed"] = True   # a flush call has been issued
+            if rep == "fail" and key[1] in ("wr", "rw") and phase == "run" and loop_ok is None and cur >= len(stmts):
+                final_flush_failed.append((sid, key))
         elif cmd == "NEXT":
             if rep == "ok":
                 s["eofp"] = False
@@ -390,9 +395,439 @@ def nontrivial(out):
     return False
 
 
+# ----------------------------------------------------------------------------- family 2: the REAL byte-level layer under rio
+# (lib/std.c handlers -> sio.c -> tio.c -> fio.c / pio.c), write(2) answered from a script (harness/rio_real_h.c).
+# Oracle only: what the property says about the bytes that reach the sink; no Lean model is involved
+# (tio.c's buffer logic has its own model and theorems in C15).
+REAL_KINDS = ["file", "file", "apfile", "console", "console", "pipe", "rwpipe"]
+REAL_LENS = [2046, 2047, 2048, 2049, 4095, 4096, 4097, 1, 25, 100, 1000, 2040, 6000]
+REAL_TOKS = ["A"] * 10 + ["a1", "a2", "a7", "a100", "a1000", "a2047", "a2048", "z", "z", "f", "f"]
+
+
+def gen_text(n, seed):
+    return "".join(chr(97 + (i * 7 + i // 26 + seed) % 26) for i in range(n))
+
+
+def real_item_text(it):
+    if it.startswith("@"):
+        l, sd = it[1:].split(".")
+        return gen_text(int(l), int(sd))
+    return "" if it == "_" else it
+
+
+def gen_real_case(rng, maxn=8):
+    n = rng.randrange(1, maxn + 1)
+    tol = rng.choice([0, 1, 1])
+    ors = rng.choice(["$", "$", "-", "-", ";;"])
+    mode = rng.random()
+    ntok = rng.choice([4, 10, 30])
+    if mode < 0.2:
+        script = "-"
+    elif mode < 0.45:
+        script = ",".join(rng.choice(["a1", "a2", "a7", "a100", "a2047", "A"]) for _ in range(ntok))
+    else:
+        script = ",".join(rng.choice(REAL_TOKS) for _ in range(ntok))
+    names = ["n1", "n2"][:rng.choice([1, 1, 2])]
+    lines = ["case %d %s %s" % (tol, ors, script)]
+    nbig = 0
+    usepipe = rng.random() < 0.35      # a pipe costs a fork+exec of sh and cat
+    echo_ok = usepipe and all(t[0] in "Aa-" for t in script.split(","))   # a lost line would leave getline waiting for ever
+    rw_half = set()
+    for _ in range(n):
+        k = rng.random()
+        kind = rng.choice(REAL_KINDS)
+        if kind in ("pipe", "rwpipe") and not usepipe:
+            kind = "file"
+        nm = "-" if kind == "console" else rng.choice(names)
+        if echo_ok and kind == "rwpipe" and nm not in rw_half and rng.random() < 0.6:
+            lines.append("e %s %s" % (nm, rng.choice(["hello", "x1y2z3", "@100.3", "@2047.5", "@2048.6", "@5000.7"])))
+            continue
+        if k < 0.45:
+            items = []
+            for _i in range(rng.randrange(1, 4)):
+                if nbig < 3 and rng.random() < 0.3:
+                    items.append("@%d.%d" % (rng.choice(REAL_LENS), rng.randrange(0, 26))); nbig += 1
+                else:
+                    items.append(rng.choice(ITEMS))
+            its = rng.choice(["-", ",".join(items), ",".join(items), ",".join(items)])
+            lines.append("p %s %s %s %s" % (kind, nm, "b" if (its != "-" and rng.random() < 0.25) else "s", its))
+        elif k < 0.62:
+            if nbig < 3 and rng.random() < 0.3:
+                d = "@%d.%d" % (rng.choice(REAL_LENS), rng.randrange(0, 26)); nbig += 1
+            else:
+                d = rng.choice(["ab", "c", "-", "hello", "w$", "x$y"])
+            lines.append("pf %s %s %s %s" % (kind, nm, "b" if rng.random() < 0.25 else "s", d))
+        elif k < 0.80:
+            if kind == "console":
+                lines.append("no" if rng.random() < 0.5 else "ff")
+            else:
+                o = rng.choice(["", "", "", " r", " w"]) if kind == "rwpipe" else rng.choice(["", "", "", " w"])
+                if kind == "rwpipe" and o:
+                    rw_half.add(nm)
+                lines.append("c %s %s%s" % (kind, nm, o))
+        elif k < 0.93:
+            lines.append(rng.choice(["ff", "ffn -", "ffn %s %s" % (kind, nm) if kind != "console" else "ff"]))
+        else:
+            lines.append("no")
+    lines.append("end")
+    return lines
+
+
+REAL_FIXED = [
+    # buffered until the end of the run: ORS empty, no newline anywhere -> delivered by hawk_rtx_loop's final flush
+    ["case 0 - -", "p file n1 s ab", "p file n1 s cd", "p console - s x", "end"],
+    ["case 0 - a1,a1,a1,a1,a1,a1,a1,a1,a1,a1,a1,a1", "p file n1 s abcdef", "pf apfile n1 s gh", "end"],
+    # exact buffer fills
+    ["case 0 - a2047,a1,A", "p file n1 s @2048.3", "p file n1 s x", "end"],
+    ["case 1 $ a100,z,a7,A", "p file n1 s @2047.5", "p file n1 s @4096.7", "end"],
+    ["case 1 ;; -", "p console - s @4096.1,@2048.2", "no", "p console - s @2049.3", "end"],
+    # a failure after a partial flush; later output must neither repeat nor reorder what was delivered
+    ["case 1 $ a3,f,A", "p file n1 s abcdefgh", "p file n1 s ijkl", "ffn file n1", "p file n1 s mnop", "end"],
+    ["case 1 - a1000,f,a5,f", "p file n1 s @2048.9", "ffn -", "p file n1 s @100.1", "c file n1", "end"],
+    # byte strings (hawk_rtx_writeiobytes -> hawk_tio_writebchars): exact fill, one more, two buffers
+    ["case 1 - -", "pf file n1 b @2048.4", "pf file n1 b xy", "p file n1 b @2047.6,z", "end"],
+    ["case 0 $ a1000,a1000,A", "p file n1 b @2049.1", "p console - b @4096.2", "p file n1 b @2048.3,@2048.4", "end"],
+    # pipes
+    ["case 1 $ a2,A", "p pipe n1 s hello,world", "c pipe n1", "p pipe n1 s again", "end"],
+    ["case 0 $ -", "p rwpipe n1 s two,way", "c rwpipe n1 r", "c rwpipe n1", "end"],
+    # round trip through a real two-way pipe under short writes
+    ["case 1 - a1,a2,a7,a100,a1000", "e n1 hello", "e n1 @2048.1", "e n2 @5000.2", "c rwpipe n1", "e n1 again", "end"],
+]
+
+
+def real_sink(kind, name, con):
+    if kind in ("file", "apfile"):
+        return "f." + name
+    if kind == "pipe":
+        return "p." + name
+    if kind == "rwpipe":
+        return "rw." + name
+    return "con.%d" % con if con in (1, 2) else None
+
+
+W_RE = re.compile(r"^W (\d+) (\S+) (\d+) (\S+) -> (\S+)$")
+
+
+def check_real(case, out):
+    """property clauses on the bytes that reach the sinks. returns list of (sig, message)"""
+    tol, ors, stmts = parse_case(case)
+    ors = ors.replace("$", "\n")
+    bad = []
+    nst = len(stmts)
+    # which sink does statement i address (the console moves on with every nextofile once it is open)
+    ssink = {}
+    c_, copen_ = 1, False
+    for i_, st_ in enumerate(stmts):
+        if st_[0] in ("p", "pf"):
+            ssink[i_] = real_sink(st_[1], st_[2], c_)
+            copen_ = copen_ or st_[1] == "console"
+        elif st_[0] == "c":
+            ssink[i_] = real_sink(st_[1], st_[2], c_)
+        elif st_[0] == "e":
+            ssink[i_] = "rw." + st_[1]
+        elif st_[0] == "ff":
+            ssink[i_] = real_sink("console", "-", c_)
+        elif st_[0] == "ffn":
+            ssink[i_] = real_sink(st_[1], st_[2], c_) if len(st_) >= 3 else "*"
+        elif st_[0] == "no":
+            ssink[i_] = real_sink("console", "-", c_)
+            if copen_:
+                c_ += 1
+    cur = -1
+    executed = []
+    R = {}
+    V = {}
+    trouble = {}           # sink -> bytes it had accepted when something first went wrong for it (f, z, a reported failure)
+
+    def mark(sk_):
+        for k_ in (list(set(accepted) | set(ssink.values())) if sk_ == "*" else [sk_]):
+            if k_ and k_ != "*":
+                trouble.setdefault(k_, len(accepted.get(k_, "")))
+    phase = "run"          # run -> flushall (after the last S: no statement is running once L is printed) -> teardown
+    loop_ok = None
+    accepted = {}          # sink -> bytes accepted so far
+    acc_at_E = None
+    first_f = {}           # sink -> len(accepted) when the first failure was injected
+    zsinks = set()
+    fails_in = {}          # statement index | 'flushall' | 'teardown' -> list of sinks
+    first_bad_write = None # index of the statement during which a write(2) first failed or took nothing
+    for l in out[1:]:
+        if l.startswith("S "):
+            cur = int(l[2:]); executed.append(cur); continue
+        if l.startswith("V "):
+            f_ = l.split(" ", 2)
+            V[cur] = "" if f_[2] == "-" else f_[2].replace("$", "\n").replace("_", " ")
+            continue
+        if l.startswith("R "):
+            R[cur] = int(l[2:])
+            if R[cur] == -1 and cur in ssink:
+                mark(ssink[cur])
+            continue
+        if l.startswith("L "):
+            loop_ok = l.startswith("L ok")
+            if not loop_ok and cur in ssink:
+                mark(ssink[cur])
+            continue
+        if l == "E":
+            phase = "teardown"; acc_at_E = dict(accepted); continue
+        if l.startswith("F "):
+            if " ok " not in l:
+                bad.append(("real-sink-content", "what the sink holds differs from what its descriptor accepted: " + l[:300]))
+            continue
+        if l == "HANG" or l.startswith("X "):
+            bad.append(("machinery", "harness said: " + l)); continue
+        m = W_RE.match(l)
+        if not m:
+            continue
+        sink, n, data, rep = m.group(2), int(m.group(3)), m.group(4), m.group(5)
+        data = "" if data == "-" else data.replace("$", "\n").replace("_", " ")
+        if len(data) != n:
+            bad.append(("machinery", "W line length mismatch: " + l[:120]))
+        where = cur if (phase == "run" and loop_ok is None and cur < nst and cur >= 0) else ("flushall" if phase == "run" else "teardown")
+        if phase == "run" and loop_ok is None and cur >= nst:
+            where = "flushall"
+        if (rep == "fail" or rep.startswith("syserr") or rep == "0") and first_bad_write is None:
+            first_bad_write = cur
+        if rep == "fail" or rep.startswith("syserr"):
+            fails_in.setdefault(where, []).append(sink)
+            first_f.setdefault(sink, len(accepted.get(sink, "")))
+            mark(sink)
+        elif rep == "0":
+            zsinks.add(sink)
+            mark(sink)
+        else:
+            k = int(rep)
+            if k < 0 or k > n:
+                bad.append(("machinery", "bad write result " + l[:120]))
+            accepted[sink] = accepted.get(sink, "") + data[:k]
+    if not out or out[-1].split()[0] not in ("F", "Z"):
+        bad.append(("machinery", "case output incomplete: last line %r" % (out[-1] if out else None,)))
+        return bad
+    if acc_at_E is None:
+        acc_at_E = dict(accepted)
+    # what the program intended, per sink, and which sinks saw a reported failure
+    last_exec = executed[-1] if executed else -1
+    intended, reported = {}, set()
+    con, con_open = 1, False
+    stmt_sink = {}
+    unread, pending_rw = {}, {}      # two-way pipes: text sent and not yet read back
+    for i in executed:
+        if i >= nst:
+            continue
+        st = stmts[i]
+        aborted_here = (i == last_exec and loop_ok is False)
+        has_value = st[0] in ("c", "ff", "ffn") or (tol and st[0] in ("p", "pf"))
+        failed = (R.get(i) == -1) if has_value else aborted_here
+        if st[0] in ("p", "pf"):
+            kind, name = st[1], st[2]
+            sk = real_sink(kind, name, con)
+            if kind == "console":
+                con_open = True
+            if st[0] == "pf":
+                payload = "" if st[4] == "-" else real_item_text(st[4]).replace("$", "\n")
+            elif st[4] == "-":
+                payload = ors
+            else:
+                payload = OFS.join(real_item_text(x) for x in st[4].split(",")) + ors
+            if sk is not None:
+                intended[sk] = intended.get(sk, "") + payload
+                stmt_sink[i] = sk
+                if kind == "rwpipe":
+                    pending_rw[name] = pending_rw.get(name, "") + payload
+                if failed:
+                    reported.add(sk)
+        elif st[0] == "e":
+            sk = "rw." + st[1]
+            intended[sk] = intended.get(sk, "") + real_item_text(st[2]) + "\n"
+            stmt_sink[i] = sk
+            unread[st[1]] = unread.get(st[1], "") + pending_rw.pop(st[1], "") + real_item_text(st[2]) + "\n"
+            if aborted_here:
+                reported.add(sk)
+            else:
+                exp, _, rest = unread[st[1]].partition("\n")
+                unread[st[1]] = rest
+                if R.get(i) != 1 or V.get(i) != exp:
+                    bad.append(("real-rwpipe-echo", "statement %d %r: what went into the two-way pipe did not come back: getline returned %r with %d characters %r.., expected the record %r.. of %d characters" % (
+                        i, " ".join(st), R.get(i), len(V.get(i) or ""), (V.get(i) or "")[:40], exp[:40], len(exp))))
+        elif st[0] == "no":
+            if con_open and not aborted_here:
+                if con in (1, 2):
+                    # the old console stream is closed by NEXT: a failure of its last flush has nowhere to go but this statement
+                    stmt_sink[i] = "con.%d" % con
+                con += 1
+        elif st[0] == "c":
+            stmt_sink[i] = real_sink(st[1], st[2], con)
+            if st[1] == "rwpipe" and len(st) == 3 and R.get(i) == 0:
+                unread.pop(st[2], None); pending_rw.pop(st[2], None)     # a new `cat` starts with the next write
+            if failed:
+                reported.add(stmt_sink[i])
+        elif st[0] in ("ff", "ffn"):
+            if failed:
+                # fflush() names the console, fflush(x) one name, fflush("") everything
+                if st[0] == "ff":
+                    reported.add("con.%d" % con)
+                elif len(st) >= 3:
+                    reported.add(real_sink(st[1], st[2], con))
+                else:
+                    reported |= set(intended) | {s_ for v in fails_in.values() for s_ in v}
+    # a print/printf that reports failure although no write(2) has failed or refused anything so far
+    # (a two-way pipe one end of which has been closed is exempt: writing to it fails by design)
+    if True:
+        halfclosed = set()
+        for i in executed:
+            if i >= nst:
+                continue
+            st = stmts[i]
+            if st[0] == "c" and st[1] == "rwpipe" and len(st) >= 4:
+                halfclosed.add(st[2])
+            if st[0] in ("p", "pf"):
+                aborted_here = (i == last_exec and loop_ok is False)
+                failed = (R.get(i) == -1) if tol else aborted_here
+                if failed and (first_bad_write is None or i < first_bad_write) and not (st[1] == "rwpipe" and st[2] in halfclosed):
+                    bad.append(("real-spurious-failure", "statement %d %r reported failure although every write(2) so far had been accepted in full or in part" % (i, " ".join(st))))
+                    break
+    # where did injected failures happen, per sink
+    f_where = {}
+    for where, sinks in fails_in.items():
+        for sk in sinks:
+            f_where.setdefault(sk, []).append(where)
+    if loop_ok and last_exec < nst:
+        bad.append(("silent-abort", "hawk_rtx_loop returned success but statements %d.. were never executed" % (last_exec + 1)))
+    # delivery, per sink
+    for sk in sorted(set(intended) | set(accepted)):
+        I = intended.get(sk, "")
+        A_E, A_Z = acc_at_E.get(sk, ""), accepted.get(sk, "")
+        # safety, always: until something goes wrong for the sink (a failing or refusing write(2), a statement on it that
+        # reports failure) nothing may be out of place; nothing is ever repeated or reordered
+        A0 = A_Z[:trouble.get(sk, len(A_Z))]
+        if not I.startswith(A0):
+            pos = next((j for j in range(min(len(A0), len(I))) if A0[j] != I[j]), min(len(A0), len(I)))
+            bad.append(("real-once-in-order", "sink %s received %d bytes that are not a prefix of the %d printed (first difference at byte %d: got %r.., printed %r..)" % (
+                sk, len(A0), len(I), pos, A0[pos:pos + 30], I[pos:pos + 30])))
+            continue
+        it = iter(I)
+        if not all(c in it for c in A_Z):
+            bad.append(("real-dup", "sink %s received bytes that are repeated or out of order: got %d bytes %r.. for %d printed %r.." % (sk, len(A_Z), A_Z[:80], len(I), I[:80])))
+            continue
+        if sk in reported:
+            continue      # the program was told: a statement on this stream returned -1 / raised a run error
+        if sk in zsinks:
+            continue      # the sink refused data ("try later"): what it never takes cannot be delivered; safety was checked
+        # nothing was reported for this sink: everything printed must have arrived, by the time hawk_rtx_loop returned
+        if A_E != I:
+            wh = f_where.get(sk, [])
+            if loop_ok is False and any(w == last_exec or w == "flushall" for w in wh):
+                continue   # the run failed: after a run error there is no marker between the failing statement and the final flush
+            stw = [w for w in wh if isinstance(w, int)]
+            if "flushall" in wh:
+                sig, why = "real-final-flush-failure-ignored", "a write(2) failed during the flush at the end of the run, hawk_rtx_loop returned %s" % ("success" if loop_ok else "failure")
+                if not loop_ok:
+                    continue   # reported by the run
+            elif stw:
+                st = stmts[stw[0]]
+                sig = "real-close-flush-failure-ignored" if st[0] in ("c", "no") else "real-write-failure-swallowed"
+                why = "a write(2) failed during statement %d %r which reported %s" % (stw[0], " ".join(st), ("the value %r" % R.get(stw[0])) if stw[0] in R else "no error")
+            elif wh:
+                continue   # failures only while the runtime was being closed: hawk_rtx_close() has no way to report
+            else:
+                sig, why = ("real-noflush" if I.startswith(A_E) else "real-once-in-order"), "no write(2) failed"
+            bad.append((sig, "sink %s had received %d of the %d bytes printed when hawk_rtx_loop returned and nothing was reported for it; %s (got ..%r, printed ..%r)" % (
+                sk, len(A_E), len(I), why, A_E[-20:], I[max(0, len(A_E) - 20):len(A_E) + 20])))
+        elif A_Z != I:
+            bad.append(("real-once-in-order", "sink %s received %d more bytes while the runtime was closed" % (sk, len(A_Z) - len(I))))
+    return bad
+
+
+def run_real(exe, cases, sdir, wd=20):
+    lines = [l for c in cases for l in c]
+    rc, cout, cerr = C.run_harness(exe, [str(wd), sdir], lines, timeout=budget(len(cases)) + len(cases) // 2)
+    status = C.classify_rc(rc, cerr)
+    if cout and cout[-1] == "HANG":
+        status = "HANG"
+    progs = [l[2:] for l in cout if l.startswith("# ")]
+    return split_out(cout), status, cerr, progs
+
+
+def real_complete(c):
+    return bool(c) and any(l == "Z done" for l in c)
+
+
+def evaluate_real(exe, cases, sdir, stats=None):
+    """returns list of (case, 'impl', sig, what, impl_out, [])"""
+    probs = []
+    todo = list(cases)
+    couts = []
+    hangs = 0
+    while todo:
+        co, status, cerr, progs = run_real(exe, todo, sdir)
+        complete = [c for c in co if real_complete(c)]
+        if status == "ok" and len(complete) == len(todo):
+            couts += co
+            break
+        j = len(complete)
+        couts += complete
+        if j >= len(todo):
+            break
+        m = re.search(r"(ERROR: \w+Sanitizer[^\n]*|runtime error:[^\n]*)", cerr)
+        frames = " | ".join(re.findall(r"#\d+ 0x[0-9a-f]+ in (\S+ [^\n]*)", cerr)[:5])
+        detail = m.group(1) if m else cerr[-300:].replace("\n", " | ")
+        if status == "HANG":
+            detail = "it did not return (watchdog) or issued more than 20000 write(2) calls"
+            hangs += 1
+        probs.append((todo[j], "impl", "real-crash-" + status.split("(")[0], "real I/O layer: the interpreter did not survive this case (%s): %s %s" % (status, detail, frames),
+                      co[j] if j < len(co) else [], []))
+        couts.append(None)
+        todo = todo[j + 1:]
+        if hangs >= 3:
+            break     # bound the time a violating tree can cost
+    for i, case in enumerate(cases):
+        co = couts[i] if i < len(couts) else None
+        if co is None:
+            continue
+        if stats is not None:
+            stats["real_cases"] = stats.get("real_cases", 0) + 1
+            for l in co:
+                if l.startswith("V "):
+                    stats["real_rwpipe_roundtrips"] = stats.get("real_rwpipe_roundtrips", 0) + 1
+                m = W_RE.match(l)
+                if m:
+                    r = m.group(5)
+                    r = "accept_all" if (r.isdigit() and int(r) == int(m.group(3))) else "short" if (r.isdigit() and int(r) > 0) else "zero" if r == "0" else "fail"
+                    stats["real_write_" + r] = stats.get("real_write_" + r, 0) + 1
+                    stats["real_sink_" + m.group(2).split(".")[0]] = stats.get("real_sink_" + m.group(2).split(".")[0], 0) + 1
+                    if int(m.group(3)) >= 2048:
+                        stats["real_write_fullbuf"] = stats.get("real_write_fullbuf", 0) + 1
+        pv = check_real(case, co)
+        if pv:
+            sig, msg = pv[0]
+            probs.append((case, "impl", sig, "real I/O layer (std.c/sio.c/tio.c/pio.c under rio.c), property clause violated on the bytes reaching the sink [%s]: %s" % (sig, msg), co, []))
+    return probs
+
+
+def shrink_real(exe, case, sig, sdir):
+    hdr, body = case[0], case[1:-1]
+
+    def same(c):
+        return any(p[2] == sig for p in evaluate_real(exe, [c], sdir))
+    small = C.ddmin(body, lambda sub: same([hdr] + list(sub) + ["end"]), max_tests=60) if len(body) > 1 else body
+    c = [hdr] + list(small) + ["end"]
+    h = c[0].split()
+    toks = h[3].split(",") if h[3] != "-" else []
+    while toks and same([" ".join(h[:3] + [",".join(toks[:-1]) if toks[:-1] else "-"])] + c[1:]):
+        toks = toks[:-1]
+        c = [" ".join(h[:3] + [",".join(toks) if toks else "-"])] + c[1:]
+    for i in range(len(toks)):
+        if toks[i] != "A":
+            t2 = toks[:i] + ["A"] + toks[i + 1:]
+            c2 = [" ".join(h[:3] + [",".join(t2)])] + c[1:]
+            if same(c2):
+                toks, c = t2, c2
+    return c if same(c) else case
+
+
 # ----------------------------------------------------------------------------- main
 THEOREMS = ("write_exactly_once_in_order, program_delivers_exactly_once_in_order, acked_writes_fully_delivered, print_success_is_complete, "
-            "handler_failure_surfaces, no_write_after_eof, open_close_balanced, clearall_closes_everything, flushed_at_return "
+            "handler_failure_surfaces, final_flush_failure_surfaces, close_reports_flush_failure, no_write_after_eof, open_close_balanced, clearall_closes_everything, flushed_at_return "
             "(HawkModel/Props/C05.lean) are statements about the model HawkModel/Rio.lean; they carry over to rio.c/run.c/fnc.c only while model and code agree line by line")
 
 
@@ -493,11 +928,14 @@ def shrink(exe, drv, case, sig, kind):
     return c if same(c) else case     # confirm; fall back to the unshrunk case
 
 
-def load_corpus():
+def load_corpus(real=False):
+    """corpus/C05/*.txt; files named real-*.txt belong to the real-layer family"""
     cases = []
     cdir = os.path.join(C.VERIF, "corpus", "C05")
     if os.path.isdir(cdir):
         for f in sorted(os.listdir(cdir)):
+            if f.startswith("real-") != real:
+                continue
             cur = []
             for l in open(os.path.join(cdir, f)):
                 l = l.strip()
@@ -563,16 +1001,61 @@ def run(ctx):
             ctx.problem("impl", what2, text, found_input=True, sig=sig)
         else:
             ctx.problem("corr", what2, text, found_input=False)
-    samples = [" ; ".join(c) for c in (cases[ncorpus:ncorpus + 1] + cases[-3:])]
-    return C.finish(ctx, [proof], evaluations, len(nontriv),
+    # ---- family 2: the real byte-level layer (std.c/sio.c/tio.c/fio.c/pio.c) under rio.c, write(2) scripted
+    exe_real = C.cc_harness(ctx, os.path.join(C.VERIF, "harness", "rio_real_h.c"), link_lib=libdir, extra=["-Wl,--wrap=write"])
+    rcases = load_corpus(real=True) + [list(c) for c in REAL_FIXED]
+    nreal_fixed = len(rcases)
+    for _ in range(2500 if quick else 40000):
+        rcases.append(gen_real_case(rng))
+    RB = 400
+    rbatches = [rcases[b:b + RB] for b in range(0, len(rcases), RB)]
+    rprobs = []
+    rnontriv = set()
+
+    def rwork(i):
+        st = {}
+        pr = evaluate_real(exe_real, rbatches[i], os.path.join(ctx.scratch, "real%d" % i), st)
+        return pr, st
+    with ThreadPoolExecutor(max_workers=min(8, os.cpu_count() or 2)) as ex:
+        for i, (pr, st) in enumerate(ex.map(rwork, range(len(rbatches)))):
+            rprobs += pr
+            for k, v in st.items():
+                stats[k] = stats.get(k, 0) + v
+    for c in rcases:
+        if c[0].split()[3] != "-" and any(t[0] in "afz" for t in c[0].split()[3].split(",")):
+            rnontriv.add(tuple(c))
+    evaluations += len(rcases)
+    ctx.log("real-layer family: ran %d cases (%d fixed/corpus): %d oracle hits" % (len(rcases), nreal_fixed, len(rprobs)))
+    seen = set()
+    for case, kind, sig, what, co, mo in sorted(rprobs, key=lambda p: len(p[0])):
+        if sig in seen or len(seen) >= 4:
+            continue
+        seen.add(sig)
+        sdir = os.path.join(ctx.scratch, "realshrink")
+        small = shrink_real(exe_real, case, sig, sdir)
+        pr = [p for p in evaluate_real(exe_real, [small], sdir) if p[2] == sig]
+        if pr:
+            case2, _, _, what2, co2, _ = pr[0]
+        else:
+            case2, what2, co2 = case, what, co
+        _, _, _, progs = run_real(exe_real, [case2], sdir)
+        text = ("# family: real  (harness/rio_real_h.c, linked with -Wl,--wrap=write against the repo; stdin = the case below, argv = <watchdog s> <scratch dir>); or: ./check C05 --replay <this file>\n" +
+                case_text(case2, progs[0] if progs else None) + "# impl:\n" + "\n".join(l[:400] for l in (co2 or [])) + "\n")
+        ctx.problem("impl", what2, text, found_input=True, sig=sig)
+    samples = [" ; ".join(c) for c in (cases[ncorpus:ncorpus + 1] + cases[-3:] + rcases[-2:])]
+    return C.finish(ctx, [proof], evaluations, len(nontriv) + len(rnontriv),
                     "cases = corpus + all statement sequences of length<=%d over a 17-statement alphabet x {tolerant,not} x {accept-all, one-char-at-a-time} + "
                     "all sequences of length<=%d with a failure/eof injected at every handler call position + seeded random programs (<=10 I/O statements over 3 names x 5 output kinds x 4 input kinds, "
                     "random short-write/eof/fail scripts); each case runs IN-PROCESS in the real interpreter with logging handlers; (1) oracle: clauses (a)-(d) + failure surfacing evaluated on the REAL handler log "
                     "(and sanitizer/signal/hang), independent of the model; (2) the log, every chain dump (type/mask/mode/name/rwcstate/eof/eos flags) and every statement value are compared with the Lean model; "
-                    "distinct_nontrivial = distinct cases whose REAL log shows a short write, an eof/fail reply or a half close" % (depth, fdepth),
-                    samples, extra_cov=dict(distribution=stats, cases=len(cases), corpus=ncorpus, exhaustive=nexh, random=nrand),
+                    "FAMILY 2 (oracle only): the same kind of programs run with hawk's own handlers (std.c -> sio.c -> tio.c -> fio.c/pio.c, sinks = files, `cat >> file` and `cat` through real pipes, console files) with "
+                    "every write(2) on a stream's descriptor answered from a script (short writes, 0 = nothing taken, EIO; payloads filling the 2048-byte buffer exactly / by one more / twice); per sink the bytes accepted must be a prefix of "
+                    "what was printed until something goes wrong, never repeated or reordered, complete when hawk_rtx_loop returns unless a failure was reported for that stream, and equal to what the file holds after hawk_rtx_close; "
+                    "distinct_nontrivial = distinct family-1 cases whose REAL log shows a short write, an eof/fail reply or a half close + distinct family-2 cases with a short/zero/failing write in their script" % (depth, fdepth),
+                    samples, extra_cov=dict(distribution=stats, cases=len(cases), corpus=ncorpus, exhaustive=nexh, random=nrand, real_cases=len(rcases)),
                     trusted=["rio.c write side, run_print/run_printf, fnc_close/fnc_fflush modelled by hand in HawkModel/Rio.lean; read side only as far as it shares the chain (one READ per getline, handler returns whole records)",
-                             "handlers of std.c (sio/tio/pio buffering, real pipes and files) are replaced by logging handlers and not covered"],
+                             "family 1 replaces the handlers of std.c by logging handlers; family 2 runs them for real but has no Lean model of its own (tio.c's buffer is modelled and proved in C15): it is a property oracle on the bytes reaching the sink",
+                             "two-way pipes in family 2: only the bytes handed to the pipe are observed (the echo of `cat` is not read back)"],
                     assumptions=["a handler never claims to have accepted more characters than offered",
                                  "a failing handler does not set HAWK_ENOIMPL (a NEXT failure with ENOIMPL during a console read counts as 'no more streams' in the C; not modelled)",
                                  "the console read loop READ->0, NEXT->1, READ->0, ... is unbounded in the C; the model bounds it by fuel (driver: 2 x script length + 8, never exhausted because every turn consumes a scripted reply) and proves the result independent of the fuel once the read returns", "a handler answering 0 to WRITE means end of stream (designed: later prints to it are dropped silently)",
@@ -581,6 +1064,28 @@ def run(ctx):
 
 def replay(ctx, path):
     libdir = C.build_libhawk(ctx)
+    if any(l.startswith("# family: real") for l in open(path)) or os.path.basename(path).startswith("real-"):
+        exe_real = C.cc_harness(ctx, os.path.join(C.VERIF, "harness", "rio_real_h.c"), link_lib=libdir, extra=["-Wl,--wrap=write"])
+        case = []
+        for l in open(path):
+            l = l.strip()
+            if l.startswith("# impl:"):
+                break
+            if l and not l.startswith("#"):
+                case.append(l)
+                if l == "end":
+                    break
+        couts, status, cerr, progs = run_real(exe_real, [case], os.path.join(ctx.scratch, "realreplay"))
+        co = couts[0] if couts else []
+        if progs:
+            print("program:", progs[0])
+        for l in co:
+            print("  " + l[:300])
+        pv = check_real(case, co) if co and real_complete(co) else [("real-crash", "no complete output: %s %s" % (status, cerr[-600:]))]
+        for sig, msg in pv:
+            print("PROPERTY [%s] %s" % (sig, msg))
+        print("status:", status)
+        return 1 if (pv or status != "ok") else 0
     exe = C.cc_harness(ctx, os.path.join(C.VERIF, "harness", "rio_h.c"), link_lib=libdir)
     drv = C.driver_exe(ctx)
     case = []
